@@ -1,4 +1,4 @@
-\* a reader-level memo for every lookup family, dropped by every write: all properties hold
+\* exhaustive: chains of <= 2 blocks of 0..2 transactions, <= 3 RevertHead (repeated reorgs: a transaction reverted twice, re-included in between)
 CONSTANTS
   MaxBlocks = 2
   MaxSize = 2
@@ -10,8 +10,8 @@ CONSTANTS
   TxSectionEndsAtReceipts = TRUE
   HashIndexExact = TRUE
   RevertDropsIndexes = TRUE
-  MaxReverts = 1
-  MemoFamilies = {"loc", "num", "hdr", "blob", "su", "l1"}
+  MaxReverts = 3
+  MemoFamilies = {}
   MemoPurged = TRUE
 INIT Init
 NEXT NextR
